@@ -19,8 +19,8 @@ NOTE = ("Trusted: Lean 4.33 kernel (axioms per theorem are listed in the evidenc
 PROPS = {
     'C01': dict(
         title='merge soundness', proj='proj_shape', oracle='c01',
-        quick=[S_('bind'), S_('merge_pairs'), S_('merge_pairs_stars'), S_('merge_rand', count=20000), S_('merge_roles', count=20000)],
-        thorough=[S_('bind'), S_('merge_pairs'), S_('merge_pairs_stars'), S_('merge_rand', count=300000, maxnamed=4),
+        quick=[S_('homonym_rand', count=20000), S_('bind'), S_('merge_pairs'), S_('merge_pairs_stars'), S_('merge_rand', count=20000), S_('merge_roles', count=20000)],
+        thorough=[S_('homonym_rand', count=300000), S_('bind'), S_('merge_pairs'), S_('merge_pairs_stars'), S_('merge_rand', count=300000, maxnamed=4),
                   S_('merge_roles', count=300000)],
         runtime_part=BINDER,
         level_text='Soundness of merge for every number of inputs is a theorem about the Lean model of _Merger._merge / merge '
@@ -30,8 +30,8 @@ PROPS = {
     ),
     'C02': dict(
         title='embed', proj='proj_shape', oracle='c02',
-        quick=[S_('bind'), S_('embed_small'), S_('embed_pairs'), S_('embed_rand', count=20000)],
-        thorough=[S_('bind'), S_('embed_small'), S_('embed_pairs', nc=64), S_('embed_rand', count=300000)],
+        quick=[S_('homonym_rand', count=20000), S_('bind'), S_('embed_small'), S_('embed_pairs'), S_('embed_rand', count=20000)],
+        thorough=[S_('homonym_rand', count=300000), S_('bind'), S_('embed_small'), S_('embed_pairs', nc=64), S_('embed_rand', count=300000)],
         runtime_part=BINDER,
         level_text='Theorems about the Lean model of _embed/embed (soundness w.r.t. the outer-forwards-to-inner composite, parameters of the '
                    'fold, bare outer); correspondence exhaustive on 220x220 pairs, sampled on 220x2493x4 and on triples/quadruples.',
@@ -49,10 +49,10 @@ PROPS = {
     ),
     'C08': dict(
         title='provenance', proj='proj_prov', oracle='c08',
-        quick=[S_('merge_pairs'), S_('merge_pairs_stars'), S_('merge_roles', count=20000), S_('merge_laws'),
+        quick=[S_('homonym_rand', count=20000), S_('merge_pairs'), S_('merge_pairs_stars'), S_('merge_roles', count=20000), S_('merge_laws'),
                S_('embed_small'), S_('embed_pairs'), S_('embed_rand', count=20000), S_('forwards_rand', count=30000),
                S_('mask0'), S_('maskp'), S_('maskflags', count=20000)],
-        thorough=[S_('merge_pairs'), S_('merge_pairs_stars'), S_('merge_roles', count=300000), S_('merge_rand', count=200000),
+        thorough=[S_('homonym_rand', count=300000), S_('merge_pairs'), S_('merge_pairs_stars'), S_('merge_roles', count=300000), S_('merge_rand', count=200000),
                   S_('merge_laws'), S_('embed_small'), S_('embed_pairs', nc=64), S_('embed_rand', count=300000),
                   S_('forwards_rand', count=300000), S_('forwards_exh', nc=32), S_('mask0'), S_('maskp'), S_('maskflags', count=200000)],
         runtime_part='identity of callables (modelled as integer ids)',
@@ -84,9 +84,9 @@ PROPS = {
     ),
     'C15': dict(
         title='error discipline', proj='proj_err', oracle='c15',
-        quick=[S_('merge_pairs'), S_('merge_rand', count=20000), S_('embed_small'), S_('embed_rand', count=20000),
+        quick=[S_('homonym_rand', count=20000), S_('merge_pairs'), S_('merge_rand', count=20000), S_('embed_small'), S_('embed_rand', count=20000),
                S_('forwards_rand', count=30000), S_('maskflags_exh'), S_('maskflags', count=40000), S_('meta_rand', count=20000)],
-        thorough=[S_('merge_pairs'), S_('merge_pairs_stars'), S_('merge_rand', count=300000), S_('embed_small'),
+        thorough=[S_('homonym_rand', count=300000), S_('merge_pairs'), S_('merge_pairs_stars'), S_('merge_rand', count=300000), S_('embed_small'),
                   S_('embed_pairs', nc=64), S_('embed_rand', count=300000), S_('forwards_rand', count=300000),
                   S_('maskflags_exh'), S_('maskflags', count=300000), S_('mask0'), S_('meta_rand', count=200000)],
         runtime_part=CTOR,
